@@ -320,6 +320,20 @@ static inline void ctx_{prefix}_drop({ty} *self) {{
             .push(format!("vtbl_{}", t.to_lowercase()));
     }
 
+    // Function names that more than one trait of a group defines
+    let mut group_fn_traits: HashMap<(String, String), HashSet<String>> = HashMap::new();
+
+    for (t, cont, second_half, _, _, funcs) in &group_vtbls {
+        let container_ty = format!("struct {}Container_{}", cont, second_half);
+
+        for f in Vtable::new(t.clone(), funcs, &container_ty)?.functions {
+            group_fn_traits
+                .entry((cont.clone(), f.name))
+                .or_default()
+                .insert(t.clone());
+        }
+    }
+
     for (t, cont, second_half, inner, context, funcs) in group_vtbls {
         let vtbl_fields = group_fields[&(cont.clone(), second_half.clone())]
             .iter()
@@ -333,6 +347,9 @@ static inline void ctx_{prefix}_drop({ty} *self) {{
         fwd_declarations += &format!("{};\n", container_ty);
 
         let vtbl = Vtable::new(t, &funcs, &container_ty)?;
+
+        // Prefix with the trait name as well when another trait of the group has the function
+        let cont_trait = format!("{}_{}", cont, vtbl.name);
 
         let ContainerType {
             ty_prefix: inner,
@@ -353,7 +370,17 @@ static inline void ctx_{prefix}_drop({ty} *self) {{
 
         let wrappers = vtbl.create_wrappers_c(
             ("container", &format!("vtbl_{}", vtbl.name.to_lowercase())),
-            ("", &|_| Some(&cont)),
+            ("", &|f| {
+                if group_fn_traits
+                    .get(&(cont.clone(), f.name.clone()))
+                    .map(|traits| traits.len() > 1)
+                    .unwrap_or(false)
+                {
+                    Some(&cont_trait)
+                } else {
+                    Some(&cont)
+                }
+            }),
             (&container_ty, inner, container_wrappers.is_some()),
             (&context, ctx, context_wrappers.is_some()),
             (&this_ty, &vtbl_fields),
